@@ -96,7 +96,11 @@ impl Shard {
         self.violation_count += 1;
         let c = self.viol_sigs.entry(sig.to_string()).or_insert(0);
         *c += 1;
-        if *c <= 3 && self.violations.len() < 60 {
+        // examples of a violation that is NOT a recorded finding (class "-") are always kept (first 2 per signature, up to
+        // 200): the examples of recorded findings must never crowd out the one that matters
+        let unknown = sig.ends_with("|-");
+        let keep = if unknown { *c <= 2 && self.violations.len() < 260 } else { *c <= 3 && self.violations.len() < 60 };
+        if keep {
             let mut d = detail;
             if let Value::Object(ref mut m) = d {
                 m.insert("sig".into(), json!(sig));
